@@ -32,6 +32,7 @@ ClassOK(k, c, first) ==
     [] k = "all"   -> TRUE
     [] k = "rest1" -> TRUE
     [] k = "ab"    -> c \in {"a", "b"}
+    [] k = "ab1"   -> IF first THEN c \in {"a", "b"} ELSE c \in {"1", "b"}    \* regex (?:a|b)(?:(?:1|b)*): two top-level groups
 MinLen(k)    == IF k = "all" THEN 0 ELSE 1
 SpansSlash(k) == k \in {"all", "rest1"}
 
